@@ -1,9 +1,11 @@
 import PdshVerif.Base.Hex
-import PdshVerif.Cbuf.Model
-import PdshVerif.Cbuf.Spec
+import PdshVerif.Cbuf.Pair
 import Driver.Util
 
-/-! line protocol of the cbuf engine: the same op lines drive the index model and the FIFO spec -/
+/-! line protocol of the cbuf engine: the same op lines drive the index model and the FIFO spec.
+    Every line is parsed into an operation of the verified library (`OpR` / `Op2`) and executed by
+    the step functions the theorems of Props/C13.lean are about (`stepMR`, `stepSR`, `stepM2`,
+    `stepS2`); this file only parses and prints. -/
 namespace Driver.CbufDrv
 open PdshVerif PdshVerif.Cbuf
 
@@ -11,150 +13,156 @@ def optHex : Option (List UInt8) → String
   | none => "~"
   | some bs => Hex.encode bs
 
-def stepModel (st : Option Cbuf) (line : String) : Option Cbuf × String :=
-  let stat (c : Cbuf) : String := s!" | {c.size} {c.used} {linesUsed c}"
-  match Driver.words line, st with
-  | ["create", mn, mx, smeta], _ =>
+/-- a descriptor that takes everything -/
+def noCap : Nat := 1 <<< 40
+
+inductive Fmt where
+  | retDrop | retBytes | retOptBytes | ret | ok
+
+def parseOp (ws : List String) : Option (OpR × Fmt) :=
+  match ws with
+  | ["opt", v] => v.toNat?.map fun v => (.base (.optSet v), .ret)
+  | ["write", hx] => (Hex.decode hx).map fun bs => (.base (.write bs), .retDrop)
+  | ["wfd", len, hx, eof] =>
+    match len.toInt?, Hex.decode hx with
+    | some len, some bs => some (.base (.writeFromFd len bs (eof = "1")), .retDrop)
+    | _, _ => none
+  | ["wline", hx] => (Hex.decode hx).map fun bs => (.base (.writeLine bs), .retDrop)
+  | ["read", len] => len.toInt?.map fun len => (.base (.read len), .retBytes)
+  | ["peek", len] => len.toInt?.map fun len => (.base (.peek len), .retBytes)
+  | ["drop", len] => len.toInt?.map fun len => (.base (.drop len), .ret)
+  | ["rline", len, lines] =>
+    match len.toInt?, lines.toInt? with
+    | some len, some lines => some (.base (.readLine len lines), .retOptBytes)
+    | _, _ => none
+  | ["pline", len, lines] =>
+    match len.toInt?, lines.toInt? with
+    | some len, some lines => some (.base (.peekLine len lines), .retOptBytes)
+    | _, _ => none
+  | ["dline", len, lines] =>
+    match len.toInt?, lines.toInt? with
+    | some len, some lines => some (.base (.dropLine len lines), .ret)
+    | _, _ => none
+  | ["flush"] => some (.base .flush, .ok)
+  | ["replay", len] => len.toInt?.map fun len => (.replay len, .retBytes)
+  | ["rewind", len] => len.toInt?.map fun len => (.rewind len, .ret)
+  | ["rfd", len] => len.toInt?.map fun len => (.readToFd len noCap, .retBytes)
+  | ["rfd", len, cap] =>
+    match len.toInt?, cap.toNat? with
+    | some len, some cap => some (.readToFd len cap, .retBytes)
+    | _, _ => none
+  | ["pfd", len, cap] =>
+    match len.toInt?, cap.toNat? with
+    | some len, some cap => some (.peekToFd len cap, .retBytes)
+    | _, _ => none
+  | ["yfd", len, cap] =>
+    match len.toInt?, cap.toNat? with
+    | some len, some cap => some (.replayToFd len cap, .retBytes)
+    | _, _ => none
+  | _ => none
+
+def fmtOut (f : Fmt) (o : Out) : String :=
+  match f with
+  | .retDrop => s!"{o.ret} {o.ndropped}"
+  | .retBytes => s!"{o.ret} {Hex.encode (o.bytes.getD [])}"
+  | .retOptBytes => s!"{o.ret} {optHex o.bytes}"
+  | .ret => s!"{o.ret}"
+  | .ok => "ok"
+
+structure St (α : Type) where
+  a : Option α := none
+  b : Option α := none
+  second : Bool := false
+
+def St.cur {α : Type} (s : St α) : Option α := if s.second then s.b else s.a
+def St.other {α : Type} (s : St α) : Option α := if s.second then s.a else s.b
+def St.setCur {α : Type} (s : St α) (x : Option α) : St α := if s.second then { s with b := x } else { s with a := x }
+def St.setOther {α : Type} (s : St α) (x : Option α) : St α := if s.second then { s with a := x } else { s with b := x }
+
+def statM (c : Cbuf) : String := s!" | {c.size} {c.used} {linesUsed c} {reused c}"
+def statS (r : Spec.RFifo) : String := s!" | {r.f.size} {r.f.q.length} {Spec.linesUsed r.f} {r.hist.length}"
+
+def stepModel (st : St Cbuf) (line : String) : St Cbuf × String :=
+  match Driver.words line with
+  | ["reset"] => ({}, "ok")
+  | ["sel", i] => ({ st with second := i = "1" }, "ok")
+  | ["create", mn, mx, smeta] =>
     match mn.toInt?, mx.toInt?, smeta.toNat? with
     | some mn, some mx, some smeta =>
       match create mn mx smeta with
-      | some c => (some c, "ok" ++ stat c)
-      | none => (none, "null")
+      | some c => (st.setCur (some c), "ok" ++ statM c)
+      | none => (st.setCur none, "null")
     | _, _, _ => (st, "bad-op")
-  | _, none => (none, "no-cbuf")
-  | ["opt", v], some c =>
-    match v.toNat? with
-    | some v => let (r, c') := optSet c v; (some c', s!"{r}" ++ stat c')
-    | none => (st, "bad-op")
-  | ["write", hx], some c =>
-    match Hex.decode hx with
-    | some bs => let (r, d, c') := write c bs; (some c', s!"{r} {d}" ++ stat c')
-    | none => (st, "bad-op")
-  | ["wfd", len, hx, eof], some c =>
-    match len.toInt?, Hex.decode hx with
-    | some len, some bs =>
-      let (r, d, c') := writeFromFd c len bs (eof = "1"); (some c', s!"{r} {d}" ++ stat c')
-    | _, _ => (st, "bad-op")
-  | ["wline", hx], some c =>
-    match Hex.decode hx with
-    | some bs => let (r, d, c') := writeLine c bs; (some c', s!"{r} {d}" ++ stat c')
-    | none => (st, "bad-op")
-  | ["read", len], some c =>
-    match len.toInt? with
-    | some len => let (r, bs, c') := read c len; (some c', s!"{r} {Hex.encode bs}" ++ stat c')
-    | none => (st, "bad-op")
-  | ["rfd", len], some c =>
-    match len.toInt? with
-    | some len =>
-      if len < -1 then (st, "-1 -" ++ stat c)
-      else
-        let (r, bs, c') := read c (if len = -1 then c.used else len)
-        (some c', s!"{r} {Hex.encode bs}" ++ stat c')
-    | none => (st, "bad-op")
-  | ["peek", len], some c =>
-    match len.toInt? with
-    | some len => let (r, bs) := peek c len; (st, s!"{r} {Hex.encode bs}" ++ stat c)
-    | none => (st, "bad-op")
-  | ["drop", len], some c =>
-    match len.toInt? with
-    | some len => let (r, c') := drop c len; (some c', s!"{r}" ++ stat c')
-    | none => (st, "bad-op")
-  | ["rline", len, lines], some c =>
-    match len.toInt?, lines.toInt? with
-    | some len, some lines =>
-      let (r, o, c') := readLine c len lines; (some c', s!"{r} {optHex o}" ++ stat c')
-    | _, _ => (st, "bad-op")
-  | ["pline", len, lines], some c =>
-    match len.toInt?, lines.toInt? with
-    | some len, some lines =>
-      let (r, o) := peekLine c len lines; (st, s!"{r} {optHex o}" ++ stat c)
-    | _, _ => (st, "bad-op")
-  | ["dline", len, lines], some c =>
-    match len.toInt?, lines.toInt? with
-    | some len, some lines => let (r, c') := dropLine c len lines; (some c', s!"{r}" ++ stat c')
-    | _, _ => (st, "bad-op")
-  | ["flush"], some c => let c' := flush c; (some c', "ok" ++ stat c')
-  | _, _ => (st, "bad-op")
+  | [k, len] =>
+    if k = "copy" ∨ k = "move" then
+      match len.toInt?, st.cur, st.other with
+      | some len, some src, some dst =>
+        let op : Op2 := if k = "copy" then .copy false len else .move false len
+        let (o, (src', dst')) := stepM2 (src, dst) op
+        ((st.setCur (some src')).setOther (some dst'), s!"{o.ret} {o.ndropped}" ++ statM src' ++ statM dst')
+      | none, _, _ => (st, "bad-op")
+      | _, _, _ => (st, "no-cbuf")
+    else
+      match st.cur, parseOp [k, len] with
+      | none, _ => (st, "no-cbuf")
+      | _, none => (st, "bad-op")
+      | some c, some (op, f) => let (o, c') := stepMR c op; (st.setCur (some c'), fmtOut f o ++ statM c')
+  | ws =>
+    match st.cur, parseOp ws with
+    | none, _ => (st, "no-cbuf")
+    | _, none => (st, "bad-op")
+    | some c, some (op, f) => let (o, c') := stepMR c op; (st.setCur (some c'), fmtOut f o ++ statM c')
 
 /-- spec lines are the op lines annotated by the harness run: `<op ...> @ <impl-ret> <impl-size>` -/
-def stepSpec (st : Option Spec.Fifo) (line : String) : Option Spec.Fifo × String :=
-  let stat (f : Spec.Fifo) : String := s!" | {f.size} {f.q.length} {Spec.linesUsed f}"
+def stepSpec (st : St Spec.RFifo) (line : String) : St Spec.RFifo × String :=
   let ws := Driver.words line
   let ops := ws.takeWhile (· ≠ "@")
   let ann := (ws.dropWhile (· ≠ "@")).drop 1
   let taken : Int := (ann.head?.bind String.toInt?).getD 0
   let sz : Nat := ((ann.drop 1).head?.bind String.toNat?).getD 0
-  let wr (r : Option (Int × Nat × Spec.Fifo)) : Option Spec.Fifo × String :=
-    match r with
-    | some (r, d, f') => (some f', s!"{r} {d}" ++ stat f')
-    | none => (st, "BAD-ANSWER")
-  match ops, st with
-  | ["create", mn, mx, _], _ =>
+  match ops with
+  | ["reset"] => ({}, "ok")
+  | ["sel", i] => ({ st with second := i = "1" }, "ok")
+  | ["create", mn, mx, _] =>
     match mn.toInt?, mx.toInt? with
     | some mn, some mx =>
       match Spec.create mn mx with
-      | some c => (some c, "ok" ++ stat c)
-      | none => (none, "null")
+      | some f => (st.setCur (some { f := f, hist := [] }), "ok" ++ statS { f := f, hist := [] })
+      | none => (st.setCur none, "null")
     | _, _ => (st, "bad-op")
-  | _, none => (none, "no-cbuf")
-  | ["opt", v], some f =>
-    match v.toNat? with
-    | some v => let (r, f') := Spec.optSet f v; (some f', s!"{r}" ++ stat f')
-    | none => (st, "bad-op")
-  | ["write", hx], some f =>
-    match Hex.decode hx with
-    | some bs => wr (Spec.write f bs sz)
-    | none => (st, "bad-op")
-  | ["wfd", len, hx, eof], some f =>
-    match len.toInt?, Hex.decode hx with
-    | some len, some bs => wr (Spec.writeFromFd f len bs (eof = "1") taken sz)
-    | _, _ => (st, "bad-op")
-  | ["wline", hx], some f =>
-    match Hex.decode hx with
-    | some bs => wr (Spec.writeLine f bs sz)
-    | none => (st, "bad-op")
-  | ["read", len], some f =>
-    match len.toInt? with
-    | some len => let (r, bs, f') := Spec.read f len; (some f', s!"{r} {Hex.encode bs}" ++ stat f')
-    | none => (st, "bad-op")
-  | ["rfd", len], some f =>
-    match len.toInt? with
-    | some len =>
-      if len < -1 then (st, "-1 -" ++ stat f)
-      else
-        let (r, bs, f') := Spec.read f (if len = -1 then f.q.length else len)
-        (some f', s!"{r} {Hex.encode bs}" ++ stat f')
-    | none => (st, "bad-op")
-  | ["peek", len], some f =>
-    match len.toInt? with
-    | some len => let (r, bs) := Spec.peek f len; (st, s!"{r} {Hex.encode bs}" ++ stat f)
-    | none => (st, "bad-op")
-  | ["drop", len], some f =>
-    match len.toInt? with
-    | some len => let (r, f') := Spec.drop f len; (some f', s!"{r}" ++ stat f')
-    | none => (st, "bad-op")
-  | ["rline", len, lines], some f =>
-    match len.toInt?, lines.toInt? with
-    | some len, some lines =>
-      let (r, o, f') := Spec.readLine f len lines; (some f', s!"{r} {optHex o}" ++ stat f')
-    | _, _ => (st, "bad-op")
-  | ["pline", len, lines], some f =>
-    match len.toInt?, lines.toInt? with
-    | some len, some lines =>
-      let (r, o) := Spec.peekLine f len lines; (st, s!"{r} {optHex o}" ++ stat f)
-    | _, _ => (st, "bad-op")
-  | ["dline", len, lines], some f =>
-    match len.toInt?, lines.toInt? with
-    | some len, some lines => let (r, f') := Spec.dropLine f len lines; (some f', s!"{r}" ++ stat f')
-    | _, _ => (st, "bad-op")
-  | ["flush"], some f => let f' := Spec.flush f; (some f', "ok" ++ stat f')
-  | _, _ => (st, "bad-op")
+  | [k, len] =>
+    if k = "copy" ∨ k = "move" then
+      match len.toInt?, st.cur, st.other with
+      | some len, some src, some dst =>
+        let op : Op2 := if k = "copy" then .copy false len else .move false len
+        match stepS2 (src, dst) op taken sz with
+        | some (o, (src', dst')) =>
+          ((st.setCur (some src')).setOther (some dst'), s!"{o.ret} {o.ndropped}" ++ statS src' ++ statS dst')
+        | none => (st, "BAD-ANSWER")
+      | none, _, _ => (st, "bad-op")
+      | _, _, _ => (st, "no-cbuf")
+    else
+      match st.cur, parseOp [k, len] with
+      | none, _ => (st, "no-cbuf")
+      | _, none => (st, "bad-op")
+      | some r, some (op, f) =>
+        match stepSR r op taken sz with
+        | some (o, r') => (st.setCur (some r'), fmtOut f o ++ statS r')
+        | none => (st, "BAD-ANSWER")
+  | ws =>
+    match st.cur, parseOp ws with
+    | none, _ => (st, "no-cbuf")
+    | _, none => (st, "bad-op")
+    | some r, some (op, f) =>
+      match stepSR r op taken sz with
+      | some (o, r') => (st.setCur (some r'), fmtOut f o ++ statS r')
+      | none => (st, "BAD-ANSWER")
 
 def main (args : List String) : IO UInt32 := do
   let stdin ← IO.getStdin
   match args with
-  | ["model"] => Driver.forLines stdin (none : Option Cbuf) stepModel; return 0
-  | ["spec"] => Driver.forLines stdin (none : Option Spec.Fifo) stepSpec; return 0
+  | ["model"] => Driver.forLines stdin ({} : St Cbuf) stepModel; return 0
+  | ["spec"] => Driver.forLines stdin ({} : St Spec.RFifo) stepSpec; return 0
   | _ => IO.eprintln "usage: pdshmodel cbuf model|spec"; return 2
 
 end Driver.CbufDrv
